@@ -390,10 +390,22 @@ class Random(Relation):
         base = st.one_of(big, near, st.sampled_from(
             [-10**9, 10**9 - 1, 10**9, 0]))
 
+        # widths at which products / sums of fixed-width integers wrap
+        # (2^k, 2^k +- 1, sqrt(2^31), sqrt(2^63)): corners stay within 1e9
+        wrap = st.one_of(
+            st.tuples(st.integers(0, 30), st.integers(-1, 1)).map(
+                lambda t: max(0, 2 ** t[0] + t[1])),
+            st.sampled_from([46340, 46341, 65535, 65536, 65537, 92682,
+                             2 ** 31 - 2 * 10 ** 9, 2 * 10 ** 9]))
+
         def interval():
-            return st.tuples(base, st.one_of(st.integers(0, 12),
-                                             st.integers(0, 10**9))).map(
+            plain = st.tuples(base, st.one_of(st.integers(0, 12),
+                                              st.integers(0, 10**9))).map(
                 lambda t: (t[0], min(t[0] + t[1], 10**9)))
+            wrapping = st.tuples(base, wrap).map(
+                lambda t: (max(-10**9, min(t[0], 10**9 - t[1])),
+                           max(-10**9, min(t[0], 10**9 - t[1])) + t[1]))
+            return st.one_of(plain, plain, wrapping)
 
         box = st.tuples(interval(), interval()).map(
             lambda t: [t[0][0], t[0][1], t[1][0], t[1][1]])
@@ -420,6 +432,7 @@ class Random(Relation):
             st.fixed_dictionaries({'kind': st.just('near'), 'ab': rel_box,
                                    'ta': st.sampled_from(INT_TYPES[:4])}),
             st.fixed_dictionaries({'kind': st.just('slices'), 'a': box,
+                                   'ta': st.sampled_from(INT_TYPES[:4]),
                                    'shape': st.tuples(
                                        st.one_of(st.integers(0, 9),
                                                  st.integers(0, 10**9)),
@@ -502,7 +515,7 @@ class Random(Relation):
         elif kind == 'slices':
             a = list(spec['a'])
             ny, nx = spec['shape']
-            A = RB(*a)
+            A = RB(*self._cast(a, spec.get('ta', 'int')))
             large, small = A.get_overlap_slices((ny, nx))
             cx = (max(a[0], 0), min(a[1], nx))
             cy = (max(a[2], 0), min(a[3], ny))
